@@ -835,3 +835,67 @@ func VerifC14LuaTables() {
 	}
 	verifCover("C14/luatable/end")
 }
+
+// VerifC14DecodeEachValue: a decode operator applied to several values in one evaluation (`.[] | @base64d`: one decoder
+// object, initialised again for every value) gives each value what it gives that value alone - also when an earlier
+// value was longer, empty, or malformed. Formats whose decoder the engine executes: base64, uri, yaml, xml.
+func VerifC14DecodeEachValue() {
+	type fm struct {
+		op   string
+		pool []string
+	}
+	fms := []fm{{"@base64d", []string{"Y2F0cw==", "", "YQ==", "Y2F0cw", "!!"}}, {"@urid", []string{"x%20y", "", "a", "%zz"}}, {"from_yaml", []string{"a: 1", "", "[1]", "# c", "a: [", "x"}}, {"from_xml", []string{"<a>1</a>", "", "<b/>", "<a>"}}}
+	f := fms[verifChoice("format", len(fms))]
+	verifXMLReal = true
+	n := 2 + verifChoice("values", 2)
+	seq := vSeq()
+	var want []string
+	wantErr := false
+	for i := 0; i < n; i++ {
+		v := f.pool[verifChoice("v"+verifItoa(int64(i)), len(f.pool))]
+		seq.Content = append(seq.Content, vStr(v))
+		alone, err := vEval(vParse(f.op), vDoc(vStr(v)))
+		if err != nil {
+			wantErr = true
+		} else {
+			want = append(want, vDumpList(alone))
+		}
+	}
+	res, err := vEval(vParse(".[] | "+f.op), vDoc(seq))
+	label := " op=" + f.op
+	if wantErr {
+		verifCover("C14/decode-each/error-expected")
+		verifAssert(err != nil, "C14/decode-error-of-one-value-not-reported"+label)
+		return
+	}
+	verifAssert(err == nil, "C14/decode-of-a-value-fails-after-another-value"+label)
+	if err != nil {
+		return
+	}
+	got := ""
+	for i, r := range vNodes(res) {
+		if i > 0 {
+			got += " | "
+		}
+		got += vDump(r)
+	}
+	w := strings.Join(want, " | ")
+	verifObserve("got", got)
+	verifObserve("want", w)
+	verifAssert(got == w, "C14/decoded-value-depends-on-the-values-decoded-before"+label)
+	verifCover("C14/decode-each/end")
+}
+
+// VerifC14Base64RoundTrip: `@base64 | @base64d` is the identity on every byte string of up to 3 (thorough 6) bytes (0x00-0xFF), through
+// yq's encoder, its padding reader and decoder, and the interpreted encoding/base64 (table lookups on solver bytes).
+func VerifC14Base64RoundTrip() {
+	s := verifStr("s", verifParam("b64len", 3), "\x00\xff")
+	res, err := vEval(vParse("@base64 | @base64d"), vDoc(vStr(s)))
+	verifAssert(err == nil && res.Len() == 1, "C14/base64-round-trip-failed")
+	if err != nil || res.Len() != 1 {
+		return
+	}
+	got := res.Front().Value.(*CandidateNode).Value
+	verifAssert(verifEqStr(got, s), "C14/base64-round-trip-changed-the-value")
+	verifCover("C14/base64-roundtrip/end")
+}
